@@ -10,6 +10,7 @@ pub mod c06;
 pub mod c07;
 pub mod c08;
 pub mod fcprops;
+pub mod c12;
 pub mod c13;
 pub mod c14;
 pub mod c15;
@@ -18,7 +19,7 @@ pub mod c18;
 pub mod c19;
 pub mod c20;
 
-pub const ALL: &[&str] = &["C01", "C02", "C03", "C04", "C05", "C06", "C07", "C08", "C09", "C10", "C11", "C13", "C14", "C15", "C17", "C18", "C19", "C20"];
+pub const ALL: &[&str] = &["C01", "C02", "C03", "C04", "C05", "C06", "C07", "C08", "C09", "C10", "C11", "C12", "C13", "C14", "C15", "C17", "C18", "C19", "C20"];
 
 pub fn get(id: &str, tier: Tier) -> Option<Prop> {
   Some(match id {
@@ -33,6 +34,7 @@ pub fn get(id: &str, tier: Tier) -> Option<Prop> {
     "C09" => fcprops::prop(fcprops::Which::C09, tier),
     "C10" => fcprops::prop(fcprops::Which::C10, tier),
     "C11" => fcprops::prop(fcprops::Which::C11, tier),
+    "C12" => c12::prop(tier),
     "C13" => c13::prop(tier),
     "C14" => c14::prop(tier),
     "C15" => c15::prop(tier),
